@@ -117,6 +117,8 @@ var vPathPool = []string{
 	"/:x", "/:x/b", "/**", `/a/\:x`, "/x/y/z", "/x/y", "/x/yz", "/a/:y", "/a/b/:*", "/a/b/c",
 	// expressions ending in a separator own the node free wildcards hang below; generic fallbacks two levels up
 	"/a/", "/:x/*rest", "/:x/", "/a/b/", "/:x/:y",
+	// ':' and '*' in the middle of a segment are literals (custom methods like /items:batchGet)
+	"/a/b:c", "/a/b*x", "/ab:c",
 }
 
 // clustered pools: expressions sharing one prefix (so that nodes with children gain and lose values) plus generic
